@@ -93,7 +93,7 @@ class Planner:
         bp = rng.choice(self.dep_heavy) if rng.chance(4, 5) else rng.choice(self.valid)
         e = rng.weighted([(9, "move_a_b"), (3, "move_b_c"), (3, "dep_sig"), (2, "dep_lifecycle"), (2, "dep_body"),
                           (2, "dep_feature"), (2, "app_sig"), (2, "app_path"), (4, "dep_include"), (3, "app_version"), (5, "app_dep_feature"),
-                          (5, "dep_comment")])
+                          (5, "dep_comment"), (5, "dep_outside_src"), (5, "dep_symlinked")])
         steps = []
         if rng.chance(1, 2):
             steps.append(_ex(rng, bp, diag=_diag_gen(rng)))
